@@ -14,6 +14,7 @@ let dispatchers : (string list -> string option) list = [
   C_seqnr.dispatch;
   C_rtte.dispatch;
   C_rx.dispatch;
+  C_segs.dispatch;
 ]
 
 let dispatch line =
